@@ -213,6 +213,14 @@ def failing_behaviours() -> list[str]:
 
 
 HANDWRITTEN = [
+    # constant conditions with a bare operand in the arm that is not taken, statements without an effect,
+    # break / continue / goto
+    "{ RdV = (1 ? RsV : PvN); }", "{ RdV = 0 ? PuN : RsV; }", "{ RdV = (0 ? NsN : RsV); }", "{ RdV = (1 ? PuN : RsV); }",
+    "{ if (((0 ? PvN : PuV) & 1)) { JUMP(riV); } }", "{ RdV = (0 ? mem_load_u32(RsV) : RtV); }",
+    "{ mem_load_u32(RsV); }", "{ PvN; }", "{ RsV; }", "{ P0_NEW; }", "{ NsN; }", "{ RsV; PvN; }", "{ RdV = RsV; mem_load_u32(RsV); }",
+    "{ for (i = 0; i < 4; i++) { if ((PuV & 1)) { break; } RdV = RdV + RsV; } }",
+    "{ for (i = 0; i < 4; i++) { RdV = RsV; continue; } }", "{ goto done; }",
+    "{ for (i = 0; i < 2; i++) { if (PuN & 1) { continue; } mem_store_u32(RsV, RtV); } }",
     "{ RdV = clz32(RsV) + RtV++; }",
     "{ RdV = clz32(RsV) + clz32(RtV); }",
     "{ int32_t q = 0; q++; }",
